@@ -8,6 +8,7 @@ mod strategies;
 mod vptr;
 mod seq;
 mod serde_check;
+mod cache_views;
 mod traits;
 
 use std::io::{BufRead, BufWriter, Write};
